@@ -203,7 +203,19 @@ def check_vector(v):
                 def collect():
                     other_text = "".join(encs[B].get_alphabet())
                     first = cur.ravel()[:len(text)] if hasattr(cur, "lengths") else cur
-                    out = bnp.as_encoded_array([first, bnp.as_encoded_array(other_text, encs[B])])
+                    # single elements (0-d) of the two arrays collected into one flat array: their letters, or an error
+                    other = bnp.as_encoded_array(other_text, encs[B])
+                    if len(text) and getattr(first, "ndim", 1) == 1:
+                        for k_ in (0, len(other_text) - 1):
+                            try:
+                                pair_ = bnp.as_encoded_array([first[0], other[k_]])
+                            except Exception:      # noqa: refused
+                                continue
+                            got_ = [ord(c) for c in pair_.encoding.decode(pair_).to_string()]
+                            up0 = text[0] - 32 if 97 <= text[0] <= 122 else text[0]
+                            if got_ != [up0, ord(other_text[k_])]:
+                                raise _Silent([got_, "single elements"])
+                    out = bnp.as_encoded_array([first, other])
                     rows = [[ord(c) for c in r] for r in out.encoding.decode(out).tolist()]
                     upper_ = [b - 32 if 97 <= b <= 122 else b for b in text]
                     if rows != [upper_, [ord(c) for c in other_text]]:
